@@ -35,7 +35,7 @@ ASSUMPTIONS = [
     'parseable as a number',
 ]
 ANCHORS = ['Table.delimited_self', 'Table._extract_data_from_tsv', 'Table.from_tsv', '_convert', 'parse_biom_table']
-REQUIRED = ['scale_exports', 'ids_with_blanks_at_their_edges', 'non_finite_value_in_last_column', 'export_legacy_function', 'export_other_column_name',
+REQUIRED = ['text_category_round_trips', 'last_sample_named_like_a_metadata_column', 'scale_exports', 'ids_with_blanks_at_their_edges', 'non_finite_value_in_last_column', 'export_legacy_function', 'export_other_column_name',
             'import_legacy_convert_table_to_biom', 'export_asked_for_absent_metadata', 'exported_again_after_change', 'export_to_tsv', 'export_str', 'export_direct_io',
             'export_cli', 'import_from_tsv_lines', 'import_from_tsv_handle',
             'import_load_table', 'import_load_table_gz',
@@ -63,8 +63,103 @@ def id_ok(i):
                                             '\x1c\x1d\x1e\x85  '))
 
 
+def text_md_case(ctx, index, r):
+    """One *text* observation category exported as the metadata column
+    (formatter and processing function: identity), also where the first
+    observation's value is the empty string."""
+    biom = ctx.biom
+    spec = gen.gen_spec(r, max_n=5, max_m=4, id_classes=['ascii', 'natsort',
+                                                         'latin1', 'decimal'],
+                        md_kinds=['none'], value_classes=['count', 'frac',
+                                                          'tiny'])
+    n = len(spec.obs_ids)
+    vals = [r.choice(['soil', 'a b', 'é', 'x;y', 'k__A; p__B', '', 'n/a'])
+            for _ in range(n)]
+    if r.random() < .5:
+        vals[0] = ''
+    if not any(v and not _looks_numeric(v) for v in vals):
+        vals[-1] = 'soil'
+    spec.obs_md = [{'env': v} for v in vals]
+    t = gen.build(biom, spec, 'dense')
+    desc = {'table': spec.describe(), 'text_category': vals}
+    exporter = r.choice(['to_tsv', 'direct_io', 'legacy-function', 'cli'])
+    desc['exporter'] = exporter
+    files = []
+    try:
+        if exporter == 'to_tsv':
+            text = t.to_tsv(header_key='env', header_value='env',
+                            metadata_formatter=lambda x: x)
+        elif exporter == 'direct_io':
+            buf = io.StringIO()
+            t.to_tsv(header_key='env', header_value='env',
+                     metadata_formatter=lambda x: x, direct_io=buf)
+            text = buf.getvalue()
+        else:
+            inp = ctx.path('c03txt%d.biom' % index)
+            files.append(inp)
+            with open(inp, 'w', encoding='utf-8') as f:
+                f.write(t.to_json('vm'))
+            if exporter == 'legacy-function':
+                from biom.parse import convert_biom_to_table
+                text = convert_biom_to_table(inp, header_key='env',
+                                             header_value='env',
+                                             md_format=lambda x: x)
+            else:
+                outp = ctx.path('c03txt%d.tsv' % index)
+                files.append(outp)
+                rr = _cli(['convert', '-i', inp, '-o', outp, '--to-tsv',
+                           '--header-key', 'env',
+                           '--tsv-metadata-formatter', 'naive'])
+                if rr.exit_code != 0:
+                    raise Violation('C03/cli-export-failed', 'exit %s %r %r; '
+                                    'case=%r' % (rr.exit_code,
+                                                 rr.output[-300:],
+                                                 rr.exception, desc))
+                with open(outp, encoding='utf-8') as f:
+                    text = f.read()
+        try:
+            o, s_, D, mdn, mds = tsvspec.decode(text, True)
+        except Exception as e:
+            raise Violation('C03/export-undecodable', '%s: %s; text=%r; '
+                            'case=%r' % (type(e).__name__, e, text[:300],
+                                         desc))
+        if o != spec.obs_ids or s_ != spec.samp_ids or \
+                not snap.bits_equal(D, spec.D) or mdn != 'env' or \
+                mds != vals:
+            raise Violation('C03/export-metadata', 'the text reads %r / %r / '
+                            '%r / %s=%r; case=%r' % (o, s_, D.tolist(), mdn,
+                                                     mds, desc))
+        lines = text.split('\n')
+        if lines and lines[-1] == '':
+            lines.pop()
+        t2 = biom.Table.from_tsv(lines, None, None, lambda x: x)
+        g = snap.snap(t2)
+        d = snap.diff(g, snap.snap_spec(spec), fields=('obs_ids', 'samp_ids',
+                                                       'D'))
+        if d or not snap.md_equal(g.obs_md, spec.obs_md):
+            raise Violation('C03/roundtrip-metadata/from_tsv_lines', '%s; '
+                            'metadata %r vs %r; case=%r' %
+                            ('; '.join(d), g.obs_md, spec.obs_md, desc))
+        ctx.count('text_category_round_trips')
+    finally:
+        for p_ in files:
+            if os.path.exists(p_):
+                os.remove(p_)
+    ctx.case(desc, True)
+
+
+def _looks_numeric(v):
+    try:
+        float(v)
+        return True
+    except ValueError:
+        return False
+
+
 def run_case(ctx, index):
     r = ctx.rng(index)
+    if index % 19 == 7:
+        return text_md_case(ctx, index, r)
     biom = ctx.biom
     shape = None
     pick = index % 6
@@ -77,6 +172,13 @@ def run_case(ctx, index):
     if not all(id_ok(i) for i in spec.obs_ids + spec.samp_ids):
         ctx.skip('generated id outside the C03 alphabet')
         return
+    if r.random() < .06:
+        # a sample called like the metadata column usually is, last in line
+        nm = r.choice(['taxonomy', 'Taxonomy', 'Consensus Lineage',
+                       'ConsensusLineage', 'metadata', 'KEGG_Pathways'])
+        if nm not in spec.samp_ids:
+            spec.samp_ids[-1] = nm
+            ctx.count('last_sample_named_like_a_metadata_column')
     edge_blanks = r.random() < .15
     if edge_blanks:
         # blanks at the edges of an id are part of the id (fields are
